@@ -451,7 +451,7 @@ def judge_logs(ctx, res, fam, logs, crashes):
     res.extra.update(schedule_policies=policies, log_item_distribution=kinds, return_outcomes=outcomes,
                      scenarios_rejected=len(rejected), worker_crashes=len(crashes), max_model_states=maxstates,
                      modes="S (scheduled at the cli.* verif hook points: fifo = quiescent stepping, random = seeded schedules)",
-                     exhaustive=("thorough tier: scenarios 0..220 of cli:c04 enumerate every permutation and every partition "
+                     exhaustive_families=("thorough tier: scenarios 0..220 of cli:c04 enumerate every permutation and every partition "
                                  "into consecutive records of the replies to 1..4 calls") if fam == "cli:c04" else "")
 
 
